@@ -340,6 +340,7 @@ def check_design(case, acc):
 
     scale = center  # noqa: F841
     kn = [1.5]  # noqa: F841  (the formulas refer to it)
+    kna = np.array([1.5, 3.0])  # an array of the caller used as knots, refilled with other numbers between evaluations
     for f in ("y ~ center(x)", "y ~ scale(x)", "y ~ standardize(x) + (center(x)|g)"):
         acc.calls += 1
         dm = design_matrices(f, df)
@@ -363,13 +364,16 @@ def check_design(case, acc):
     for f in ("y ~ center(x) + scale(x)", "y ~ 1 + (0 + center(x) | g)", "y ~ (scale(x) | g)", "y ~ x + (standardize(x) | g)",
               "y ~ poly(x, 2)", "y ~ bs(x, df=4)", "y ~ (0 + poly(x, 2) | g)", "y ~ (0 + bs(x, df=3) | g) + center(x)",
               "y ~ poly(x, degree=2)", "y ~ poly(x, 2, raw=True)", "y ~ poly(x, degree=3, raw=True) + (0 + poly(x, degree=2) | g)", "y ~ bs(x, degree=2, df=4)", "y ~ bs(x, knots=kn, intercept=True)",
-              "y ~ (poly(x, raw=True, degree=2) | g)"):
+              "y ~ (poly(x, raw=True, degree=2) | g)", "y ~ bs(x, knots=kna)", "y ~ (0 + bs(x, knots=kna, degree=2) | g)"):
+        kna[:] = [1.5, 3.0]
         acc.calls += 1
         dm = design_matrices(f, df)
         mats = [(w, M, np.array(M.design_matrix, dtype=float, copy=True)) for w, M in (("common", dm.common), ("group", dm.group)) if M is not None]
         m, s = x.mean(), x.std()
         events = [("ints", [0, 1, 2, 3]), ("good", [10.0, -3.0]), ("rows", [4, 1]), ("missing", None), ("rows", [0, 5, 2]), ("good", [0.5, 7.0]), ("text", None), ("rows", [3, 3]), ("good", [2.0, 2.0])]
         for step, (kind, arg) in enumerate(events):
+            if step == 2 and "kna" in f:
+                kna[:] = [4.5, 0.5]  # the caller reuses its array: the design keeps the knots it was built with
             if kind == "good":
                 nd = pd.DataFrame({"y": [0.0, 0.0], "x": arg, "g": ["a", "b"]})
             elif kind == "rows":
@@ -414,6 +418,7 @@ def check_design(case, acc):
             else:
                 continue
             break
+    kna[:] = [1.5, 3.0]
     if problems:
         acc.case(case, "MISMATCH")
         acc.violation("center-scale", "design", case, "; ".join(problems[:3]))
